@@ -1249,7 +1249,6 @@ def _run_allclose(
                 and got_arr.shape[-1] == 2
             ):
                 got_arr = got_arr[..., 0] + 1j * got_arr[..., 1]
-                got_arr = got_arr.astype(expected_arr.dtype, copy=False)
 
         if expected_arr.shape != got_arr.shape:
             return (
@@ -1259,10 +1258,22 @@ def _run_allclose(
                 ),
             )
 
-        if _is_floating_dtype(expected_arr) or _is_floating_dtype(got_arr):
+        # Compare the ORT value as produced.  Casting it to the JAX dtype first would
+        # hide real differences (1.5 -> 1 for integer outputs, 2**32 + 5 -> 5 for int32).
+        expected_kind = _dtype_kind(expected_arr.dtype)
+        got_kind = _dtype_kind(got_arr.dtype)
+        if expected_kind != got_kind:
+            return (
+                False,
+                "Output {} dtype mismatch (JAX {} is {}, ORT {} is {})".format(
+                    idx, expected_arr.dtype, expected_kind, got_arr.dtype, got_kind
+                ),
+            )
+
+        if expected_kind == "floating":
             if not np.allclose(
                 expected_arr,
-                got_arr.astype(expected_arr.dtype, copy=False),
+                got_arr,
                 rtol=rtol,
                 atol=atol,
                 equal_nan=True,
@@ -1273,10 +1284,11 @@ def _run_allclose(
                     False,
                     f"Output {idx} mismatch (max abs diff {max_diff}, rtol={rtol}, atol={atol})",
                 )
+        elif expected_kind == "integer":
+            if not _integer_arrays_equal(expected_arr, got_arr):
+                return (False, f"Output {idx} mismatch (non-floating tensors differ)")
         else:
-            if not np.array_equal(
-                expected_arr, got_arr.astype(expected_arr.dtype, copy=False)
-            ):
+            if not np.array_equal(expected_arr, got_arr):
                 return (False, f"Output {idx} mismatch (non-floating tensors differ)")
 
     return True, "Outputs match within tolerance."
@@ -1379,7 +1391,26 @@ def _to_numpy_output(value: Any) -> np.ndarray:
     return cast(np.ndarray, np.asarray(value))
 
 
-def _is_floating_dtype(arr: np.ndarray) -> bool:
-    return np.issubdtype(arr.dtype, np.floating) or np.issubdtype(
-        arr.dtype, np.complexfloating
-    )
+def _dtype_kind(dtype: Any) -> str:
+    """Coarse dtype kind used to decide how two outputs are compared."""
+    np_dtype = np.dtype(dtype)
+    if np_dtype == np.bool_:
+        return "boolean"
+    # jnp.issubdtype also classifies the ml_dtypes extension types (bfloat16, int4, ...).
+    if jnp.issubdtype(np_dtype, jnp.integer):
+        return "integer"
+    if jnp.issubdtype(np_dtype, jnp.inexact):
+        return "floating"
+    return str(np_dtype)
+
+
+def _integer_arrays_equal(expected: np.ndarray, got: np.ndarray) -> bool:
+    """Exact integer equality after widening both operands, never narrowing one."""
+    try:
+        common = np.result_type(expected.dtype, got.dtype)
+    except TypeError:
+        common = np.dtype(np.int64)
+    if common.kind not in "iu":
+        # int64 vs uint64 promotes to float64, which is lossy: compare Python ints.
+        common = np.dtype(object)
+    return bool(np.array_equal(expected.astype(common), got.astype(common)))
